@@ -766,8 +766,69 @@ var caseTag string
 // curCase is the number of the generated case being run.
 var curCase int
 
+// genCasePruneThenEquivocate: validator 0 votes for checkpoint A (height 2E); the other three
+// validators justify B1 (height E) and B2 (height 2E) on a competing branch, so B1 is finalized
+// and the branch of A is pruned from the checkpoint tree; then validator 0 votes for B2 — the
+// height of its first vote. It must be refused: the earlier vote is still in the store even
+// though the tree has forgotten its branch.
+func genCasePruneThenEquivocate(c *Ctx, mode string) {
+	rng := c.Rng
+	E := uint64(2 + rng.Intn(2))
+	nc := newNodeCase(c, mode, E, 4, -1, 2)
+	defer nc.close()
+	chain := func(from string, n int, arb byte) []string {
+		var out []string
+		tip := from
+		for i := 0; i < n; i++ {
+			tip = nc.defBlock(tip, 0, arb, nil)
+			if tip == "" {
+				return nil
+			}
+			out = append(out, tip)
+		}
+		return out
+	}
+	a := chain("b0", int(2*E), 0) // branch A: its last block is checkpoint A (height 2E)
+	b := chain("b0", int(2*E), 1) // branch B: checkpoints B1 (height E) and B2 (height 2E)
+	if a == nil || b == nil {
+		return
+	}
+	for _, n := range append(append([]string{}, a...), b...) {
+		nc.deliver(n)
+	}
+	cpA, cpB, cpB2 := a[2*E-1], b[E-1], b[2*E-1]
+	nc.vote(0, "b0", cpA, true)
+	perm := rng.Perm(3)
+	for _, v := range perm {
+		nc.vote(1+v, "b0", cpB, true)
+	}
+	for _, v := range perm {
+		nc.vote(1+v, cpB, cpB2, true) // B1 becomes the finalized root: branch A is pruned
+	}
+	// validator 0 now votes for B2, which has the height of its vote for A (in random order: from
+	// the root, from genesis)
+	evs := [][2]string{{cpB, cpB2}, {"b0", cpB2}}
+	rng.Shuffle(len(evs), func(i, j int) { evs[i], evs[j] = evs[j], evs[i] })
+	for _, e := range evs {
+		if nc.dead {
+			break
+		}
+		nc.vote(0, e[0], e[1], true)
+	}
+	if rng.Intn(2) == 0 && !nc.dead {
+		nc.restart()
+		nc.vote(0, cpB, cpB2, true)
+	}
+	c.Count("prune-then-equivocate-cases")
+	c.Distinct(fmt.Sprintf("prune-equivocate-%d-%d", c.Seed, c.nOps))
+}
+
 func genCaseTree(c *Ctx, mode string) {
 	rng := c.Rng
+	if mode == "tree" && rng.Intn(10) == 0 {
+		genCasePruneThenEquivocate(c, mode)
+		return
+	}
 	E := uint64(2 + rng.Intn(3))
 	nVal := 1 + rng.Intn(4)
 	local := rng.Intn(nVal+1) - 1
